@@ -2142,6 +2142,71 @@ fn c18_call_errors(rt: &FfiRuntime, part: u8) -> Stats {
             st.violation(Violation { signature: "MACHINERY:ffi-client-did-not-connect".into(), summary: "queue-full scenario".into(), replay: json!({}) });
         }
     }
+    // (b2) a setting call made while the queue is full: whatever it returns, the next one that
+    // returns OK must take effect (the Rust `Channel::disable` has no way of being "accepted and
+    // ignored")
+    {
+        let peer = spawn_peer(PeerBehaviour::Silent, false);
+        let fc = FfiClient::new(rt, peer.addr, 1, (1000, 1000), decode_nothing());
+        unsafe { ffi::rodbus_client_channel_enable(fc.ch) };
+        if fc.wait_state(2, 3000) {
+            let mut handles = vec![];
+            let mut full = false;
+            for _ in 0..6 {
+                let (rc, cbs, d) = fc.call(Op::ReadHolding, 1, 600, 0, 2);
+                handles.push((cbs, d));
+                if rc == perr(ffi::ParamError::TooManyRequests) {
+                    full = true;
+                    break;
+                }
+            }
+            let rc1: c_int = unsafe { ffi::rodbus_client_channel_disable(fc.ch) }.into();
+            st.evaluations += 1;
+            st.class("call:setting-while-queue-full");
+            st.observe(&(full, rc1));
+            if !full {
+                st.class("call:queue-full-not-reached");
+            }
+            let mut effective = rc1 == OK;
+            let mut rcs = vec![rc1];
+            if rc1 != OK {
+                if rc1 != perr(ffi::ParamError::TooManyRequests) {
+                    st.violation(Violation { signature: "queue-full-error-code:setting".into(), summary: format!("disable with a full queue returned {rc1}"), replay: json!({"kind": "c18-call-errors"}) });
+                }
+                // once the queue has drained the call must be accepted
+                let t = Instant::now();
+                while t.elapsed() < Duration::from_secs(8) {
+                    let rc: c_int = unsafe { ffi::rodbus_client_channel_disable(fc.ch) }.into();
+                    rcs.push(rc);
+                    if rc == OK {
+                        effective = true;
+                        break;
+                    }
+                    std::thread::sleep(Duration::from_millis(50));
+                }
+            }
+            if !effective {
+                st.violation(Violation { signature: "setting-call-never-accepted".into(), summary: format!("disable kept being refused for 8 s after the queue had been full: {rcs:?}"), replay: json!({"kind": "c18-call-errors"}) });
+            } else if !fc.wait_state(0, 5000) {
+                st.violation(Violation {
+                    signature: "setting-call-accepted-but-ignored".into(),
+                    summary: format!("disable returned {rcs:?} (the last one OK) on a connected channel whose queue had been full, yet Disabled was never announced: states {:?}", fc.states.lock().unwrap().states),
+                    replay: json!({"kind": "c18-call-errors"}),
+                });
+            }
+            // and the way back
+            let rc: c_int = unsafe { ffi::rodbus_client_channel_enable(fc.ch) }.into();
+            if rc != OK || !fc.wait_state(2, 5000) {
+                st.violation(Violation { signature: "setting-call-accepted-but-ignored".into(), summary: format!("enable after that returned {rc}; Connected was not announced again: states {:?}", fc.states.lock().unwrap().states), replay: json!({"kind": "c18-call-errors"}) });
+            }
+            let t = Instant::now();
+            while handles.iter().any(|(cbs, d)| cbs.lock().unwrap().completions.is_empty() || *d.lock().unwrap() == 0) && t.elapsed() < Duration::from_secs(8) {
+                std::thread::sleep(Duration::from_millis(1));
+            }
+        } else {
+            st.violation(Violation { signature: "MACHINERY:ffi-client-did-not-connect".into(), summary: "setting-while-queue-full scenario".into(), replay: json!({}) });
+        }
+    }
     st
 }
 
